@@ -2,6 +2,7 @@ import Grexv.Props.C09
 import Grexv.Props.C10
 
 import Grexv.Lemmas.Lex
+import Grexv.Lemmas.EndToEnd
 
 /-!
 # C01 — soundness: the generated regex matches every test case (stage lemmas)
@@ -88,5 +89,21 @@ theorem class_member_lexes (c : Nat) (h : c < 128) :
     Lex.parsesAsClass (97 :: escapeClassChar c) [.range 97 97, .range c c] = true :=
   ⟨List.all_eq_true.mp Lex.class_member_ascii_first c (List.mem_range.mpr h),
    List.all_eq_true.mp Lex.class_member_ascii_later c (List.mem_range.mpr h)⟩
+
+/-- **C01 for the model, default settings, all inputs** every non-empty test case is matched in full by the
+pattern the regex parser builds from the returned text (with or without capturing groups); the empty test
+case is the one exception (known finding D1, see `C02.default_exact`) -/
+theorem default_sound (cap : Bool) (env : Env) (ws : List Str) (st : Stages)
+    (h : regExpFrom (cfgPlain cap) env ws = .ok st) (hseg : ∀ w ∈ ws, Grexv.SegOK env w)
+    (t : Str) (ht : t ∈ ws) (hne : t ≠ []) :
+    ∃ P, Spec.parse (fmtRegExp (cfgPlain cap) st.finalAst) = some (⟨false, false⟩, P) ∧ Spec.fullMatch false P t = true := by
+  have hsc : ∀ c ∈ t, Scalar c := by
+    obtain ⟨h1, h2⟩ := hseg t ht
+    intro c hc
+    rw [← h2] at hc
+    obtain ⟨p, hp, hcp⟩ := List.mem_flatten.mp hc
+    exact (h1 p hp).2 c hcp
+  obtain ⟨P, hP, hm⟩ := Grexv.default_exact cap env ws st h hseg ⟨t, ht, hne⟩ t hsc
+  exact ⟨P, hP, hm.mpr ⟨ht, hne⟩⟩
 
 end Grexv.Props.C01
